@@ -19,7 +19,7 @@ func FuzzC15Genome(f *testing.F)  { fuzzProp(f, "C15", "genome", GenC15Genome(),
 func FuzzC18Scalar(f *testing.F)  { fuzzProp(f, "C18", "scalar", GenC18Scalar(), CheckC18Scalar) }
 func FuzzC18Module(f *testing.F)  { fuzzProp(f, "C18", "module", GenC18Module(), CheckC18Module) }
 func FuzzC19Series(f *testing.F) {
-	fuzzProp(f, "C19", "series", mapGen(genSeries(200), func(x []float64) C19Series { return C19Series{X: x} }), CheckC19Series)
+	fuzzProp(f, "C19", "series", genC19Series(200), CheckC19Series)
 }
 func FuzzC19Exp(f *testing.F) { fuzzProp(f, "C19", "aggregates", genC19Exp(), CheckC19Exp) }
 func FuzzC20(f *testing.F)    { fuzzProp(f, "C20", "protocol", GenC20(), CheckC20) }
